@@ -42,7 +42,8 @@ def jobs(tier, seed):
         J.append(Job('shapes:' + name, 'harness.c09', 'h_shapes', {'family': name, 'phases': 6 if thorough else (1 if heavy else 3),
                                                                    'max_factor': 3 if thorough else (1 if heavy else 2)},
                      timeout=3000 if thorough else 600, witnesses=['shape']))
-    for name in ('delayed', 'qa222', 'op204', 'np221', 'zero-rep', 'attr-on-factor') + (tuple(names[:20]) if thorough else ()):
+    # incl. templates that leave an operator in force at the end of a subset (the next subset must be wired from a clean state)
+    for name in ('delayed', 'qa222', 'op204', 'np221', 'zero-rep', 'attr-on-factor', 'open-221', 'open-204', 'open-222') + (tuple(names[:20]) if thorough else ()):
         J.append(Job('shapes:2subsets:' + name, 'harness.c09', 'h_shapes', {'family': name, 'n_subsets': 2, 'phases': 2 if thorough else 1, 'max_factor': 1, 'nbits': 4096},
                      timeout=1200, witnesses=['shape'], core=False))
     for y in ((1, 2, 3, 4) if thorough else (1, 2, 3)):
